@@ -44,6 +44,11 @@ Proof. intros f p. destruct (directive_table f p) as [H1 [H2 [H3 H4]]]. split; [
    order given, and standard input exactly if no file is named *)
 Theorem C10_all_files_are_read_in_order : forall n : nat, main_sources n = Some (if Nat.eqb n 0 then SrcStdin :: nil else map SrcFile (seq 0 n)).
 Proof. exact all_files_are_read_in_order. Qed.
+(* `#show p/n.` (and `#project p/n.`) of the input concerns the atoms p(args,k): the rewritten statement counts the time stamp, for a classically negated
+   signature as for a positive one (REGENERATED from visit_ShowSignature / visit_ProjectSignature: the arity is incremented unconditionally) *)
+Theorem C10_show_signatures_count_the_time_stamp : forall n : nat, show_arity_gen n = S n /\ project_arity_gen n = S n.
+Proof. intros n. unfold show_arity_gen, project_arity_gen. split; apply Nat.add_1_r. Qed.
+Print Assumptions C10_show_signatures_count_the_time_stamp.
 Print Assumptions C10_all_files_are_read_in_order.
 Print Assumptions C10_every_text_starts_in_the_initial_part.
 Print Assumptions C10_directive_table.
